@@ -1458,12 +1458,16 @@ void TopologyKernel::swap_cell_indices(CellHandle _h1, CellHandle _h2)
 
     // correct pointers to those cells
     if (has_face_bottom_up_incidences()) {
-        for (const auto hfh: cells_[_h1].halffaces()) {
+        // A halfface can be listed by both cells (a deferred-deleted cell and the
+        // cell that was added on the same halffaces): decide once per halfface.
+        std::vector<HalfFaceHandle> hfhs = cells_[_h1].halffaces();
+        hfhs.insert(hfhs.end(), cells_[_h2].halffaces().begin(), cells_[_h2].halffaces().end());
+        std::sort(hfhs.begin(), hfhs.end());
+        hfhs.erase(std::unique(hfhs.begin(), hfhs.end()), hfhs.end());
+        for (const auto hfh: hfhs) {
             if (incident_cell_per_hf_[hfh] == _h1)
                 incident_cell_per_hf_[hfh] = _h2;
-        }
-        for (const auto hfh: cells_[_h2].halffaces()) {
-            if (incident_cell_per_hf_[hfh] == _h2)
+            else if (incident_cell_per_hf_[hfh] == _h2)
                 incident_cell_per_hf_[hfh] = _h1;
         }
     }
